@@ -4,30 +4,38 @@
    spec     : Model.RecvMerge.spec_step           (per request id: the data of all chunks since the last final/abort chunk)
    sender   : Model.RecvMerge.ref_stream, seq_next (Part 6, 6.7.2.4 numbering incl. roll-over to any value below 1024) *)
 From Coq Require Import NArith List Bool Lia.
-From Opcua Require Import Model.RecvBase Model.RecvMerge Proofs.RecvBaseProofs Proofs.RecvMergeProofs.
+From Opcua Require Import Model.RecvBase Model.RecvMerge Model.RecvChan Proofs.RecvBaseProofs Proofs.RecvMergeProofs Proofs.RecvChanProofs.
 Import ListNotations.
 Open Scope N_scope.
 
-Definition receive_all (mc ms : N) (cs : list chunk) : list rout := snd (recv_all mc ms [] cs).
+(* readChunk's sequence check (Model.RecvChan.seq_filter: numbers must increase, roll-over allowed) and then the buffering *)
+Definition receive_all (mc ms : N) (cs : list chunk) : list rout := snd (recv_all mc ms [] (seq_filter cs)).
 Definition encoded_by (mc ms : N) (cs : list chunk) : list rout := snd (spec_all mc ms [] cs).
 
 (* Any stream — any interleaving by request id, any piece sizes, aborts, any limits, over-limit messages included —
    in which no pending message sees the same sequence number twice in a row is reassembled into exactly what it encodes. *)
-Theorem C12_reassembly : forall mc ms cs, fresh cs = true -> receive_all mc ms cs = encoded_by mc ms cs.
-Proof. intros. apply (recv_all_spec mc ms cs [] [] []); [apply Inv_empty | assumption]. Qed.
+Theorem C12_reassembly : forall mc ms cs,
+  fresh (seq_filter cs) = true -> receive_all mc ms cs = encoded_by mc ms (seq_filter cs).
+Proof. intros. apply (recv_all_spec mc ms (seq_filter cs) [] [] []); [apply Inv_empty | assumption]. Qed.
 
 (* Pairwise distinct numbers on the wire are enough (interleaved senders included) ... *)
-Theorem C12_distinct_numbers : forall mc ms cs, NoDup (map ck_seq cs) -> receive_all mc ms cs = encoded_by mc ms cs.
+Theorem C12_distinct_numbers : forall mc ms cs,
+  NoDup (map ck_seq (seq_filter cs)) -> receive_all mc ms cs = encoded_by mc ms (seq_filter cs).
 Proof.
   intros. apply C12_reassembly. apply fresh_nodup; [|assumption]. intros r s H'. discriminate.
 Qed.
+
+(* A numbering that follows the rule of Part 6 passes the sequence check untouched: nothing a conforming peer sends is dropped. *)
+Theorem C12_conforming_passes_check : forall cs, chain (map ck_seq cs) -> seq_filter cs = cs.
+Proof. exact seq_filter_chain. Qed.
 
 (* ... and every numbering that follows the rule of Part 6 (start anywhere, roll over to any value below 1024, 0 included)
    has pairwise distinct numbers as long as fewer than 2^32 - 2047 chunks are looked at. *)
 Theorem C12_conforming_numbering : forall mc ms cs,
   chain (map ck_seq cs) -> nlen cs <= 4294965249 -> receive_all mc ms cs = encoded_by mc ms cs.
 Proof.
-  intros mc ms cs Hc Hl. apply C12_distinct_numbers. apply chain_nodup; [exact Hc|].
+  intros mc ms cs Hc Hl. rewrite <- (seq_filter_chain cs Hc) at 2. apply C12_distinct_numbers.
+  rewrite (seq_filter_chain cs Hc). apply chain_nodup; [exact Hc|].
   unfold nlen in *. now rewrite map_length.
 Qed.
 
@@ -75,6 +83,7 @@ Qed.
 
 Print Assumptions C12_reassembly.
 Print Assumptions C12_distinct_numbers.
+Print Assumptions C12_conforming_passes_check.
 Print Assumptions C12_conforming_numbering.
 Print Assumptions C12_ref_sender.
 Print Assumptions C12_prefix_filter_refuted.
